@@ -50,6 +50,18 @@ void norace_end()
     if (--g_norace_depth == 0) real_ignore_end();
 }
 
+std::string &pending_stall()
+{
+    static std::string s;
+    return s;
+}
+
+std::exception_ptr &pending_error()
+{
+    static std::exception_ptr e;
+    return e;
+}
+
 void hb_release(void *addr)
 {
     if (__tsan_release) __tsan_release(addr);
